@@ -61,9 +61,14 @@ def rule_D5(tree: Tree) -> RuleResult:
                     nd = cfg.nodes[b]
                     if nd.kind == "case" and lab == "T" and isinstance(nd.ast.pattern, ast.MatchValue) and try_fold(nd.ast.pattern.value) == 0x17:
                         ok = False
+            if ok:
+                # what runs only with -a must not be able to raise: an exception there skips the statements that follow (key switch, state update) only with the switch on
+                risky = [x for x in ast.walk(a) if isinstance(x, ast.Subscript) and not isinstance(x.slice, ast.Slice) and isinstance(x.ctx, ast.Load)]
+                if risky:
+                    ok = False
             r.ob(ok, Finding("D5", f"session:{f.qualname}:meta-dependent:{_norm_stmt(a)}",
                              f"{f.qualname}: `{src(a, 100)}` executes only with (or only without) -a; the switch may only add records to the output "
-                             f"channel — it must not influence decryption state, gates or application-data handling", f.module.line(a)))
+                             f"channel, with expressions that cannot raise (no index / key lookup) — it must not influence decryption state, gates or application-data handling", f.module.line(a)))
         # every read of the switch is a branch test (not stored into other state, not passed on)
         for n in body_walk(f.node):
             if isinstance(n, ast.Attribute) and n.attr == "exp_meta" and isinstance(n.ctx, ast.Load):
